@@ -112,24 +112,6 @@ Fixpoint weave (rqs : list (option frequest)) (rs : list (frequest * outcome (by
 Definition enc_threads (rqss : list (list (option frequest))) (rss : list (list (frequest * outcome (bytes * scope)))) : sexp :=
   L (sym "threads" :: map (fun p => L (sym "t" :: weave (fst p) (snd p))) (combine rqss rss)).
 
-Fixpoint sexp_eqb (fuel : nat) (a b : sexp) : bool :=
-  match fuel with
-  | O => false
-  | S f =>
-      match a, b with
-      | A x, A y => bytes_eqb x y
-      | I x, I y => Z.eqb x y
-      | L x, L y =>
-          (fix go (x y : list sexp) : bool :=
-             match x, y with
-             | [], [] => true
-             | p :: x', q :: y' => sexp_eqb f p q && go x' y'
-             | _, _ => false
-             end) x y
-      | _, _ => false
-      end
-  end.
-
 Definition to_nat (x : sexp) : nat := match x with I z => Z.to_nat z | _ => 0%nat end.
 
 Definition dec_sched (x : sexp) : list nat :=
@@ -152,7 +134,7 @@ Definition run_threads (cfg : sexp) (ress : list sexp) (threads : sexp) (extra :
             match x with
             | L [_; entry; args] =>
                 match pick_pattern b all_entries entry with
-                | Some p => Some (FReq (ExtractC06.dec_args args) p)
+                | Some p => Some (FReq (ExtractC06.dec_args args) (pick_top b entry) p)
                 | None => None
                 end
             | _ => None
@@ -185,7 +167,7 @@ Definition run_threads (cfg : sexp) (ress : list sexp) (threads : sexp) (extra :
             match encs with
             | [] => bad
             | e0 :: rest =>
-                match find (fun e => negb (sexp_eqb 64 e0 e)) rest with
+                match find (fun e => negb (sexp_eqb e0 e)) rest with
                 | Some e1 => L [sym "SCHEDULE-DEPENDENT"; e0; e1]
                 | None => e0
                 end
